@@ -1006,8 +1006,23 @@ class SqliteShim:
         return getattr(REAL_SQLITE3, name)
 
 
+def _extra_files(path):
+    """Files next to the store that carry its name plus a suffix other than SQLite's own side files (a lock or
+    marker file the library might keep there): they are part of what a crash leaves behind."""
+    d, base = os.path.dirname(path) or ".", os.path.basename(path)
+    out = []
+    try:
+        names = sorted(os.listdir(d))
+    except OSError:
+        return out
+    for name in names:
+        if name.startswith(base) and name != base and name[len(base):] not in SIDE_SUFFIXES:
+            out.append(name[len(base):])
+    return out
+
+
 def read_image(path, fd):
-    """(db bytes, journal bytes|None, wal|None, shm|None) as on disk right now."""
+    """(db bytes, journal bytes|None, wal|None, shm|None, ((suffix, bytes), ...)) as on disk right now."""
     if fd is not None:
         size = os.fstat(fd).st_size
         main = os.pread(fd, size, 0) if size else b""
@@ -1024,6 +1039,14 @@ def read_image(path, fd):
                 out.append(f.read())
         except FileNotFoundError:
             out.append(None)
+    extras = []
+    for suf in _extra_files(path):
+        try:
+            with open(path + suf, "rb") as f:
+                extras.append((suf, f.read()))
+        except OSError:
+            pass
+    out.append(tuple(extras))
     return tuple(out)
 
 
@@ -1038,10 +1061,20 @@ def write_image(path, image):
         else:
             with open(p, "wb") as f:
                 f.write(data)
+    extras = dict(image[4]) if len(image) > 4 else {}
+    for suf in _extra_files(path):
+        if suf not in extras:
+            try:
+                os.unlink(path + suf)
+            except OSError:
+                pass
+    for suf, data in extras.items():
+        with open(path + suf, "wb") as f:
+            f.write(data)
 
 
 def remove_image(path):
-    for suf in ("",) + SIDE_SUFFIXES:
+    for suf in ("",) + SIDE_SUFFIXES + tuple(_extra_files(path)):
         try:
             os.unlink(path + suf)
         except FileNotFoundError:
